@@ -2,6 +2,7 @@ package nodeprops
 
 import (
 	"fmt"
+	"net"
 	"reflect"
 	"sync"
 	"sync/atomic"
@@ -462,16 +463,19 @@ func c11scenario(rep *vh.Report, seed uint64, idx int) {
 func TestC11(t *testing.T) {
 	rep := vh.NewReport("C11")
 	defer rep.Finish(t)
-	rep.Rule("scenarios with 1..8 custom channels, 2..6 writer goroutines issuing a random mix of WriteMessageAll/To/Except and WriteFrameAll/To/Except (v1 and v2 frames, decoded and raw), " +
+	rep.Rule("scenarios with 1..8 custom channels (and, every fourth scenario, 2..5 real TCP connections to a server endpoint whose peers parse what they receive), 2..6 writer goroutines issuing a random mix of WriteMessageAll/To/Except and WriteFrameAll/To/Except (v1 and v2 frames, decoded and raw), " +
 		"writes naming a foreign channel and a closed channel object, concurrent incoming traffic, one channel closing and re-opening in a third of the scenarios, v1 nodes in a quarter; " +
 		"flow control keeps every goroutine's outstanding items per channel <= W with writers x W <= 48 < 64 so that any missing item is a loss; hook perturbation at api.write, loop.*, ch.enqueue, ch.writer.dequeue. " +
 		"Offline checker over unique ids: whole frames only, at most once, isolation (To / Except / closed / foreign), delivery to channels open for the whole call, FIFO per (goroutine, channel), header fields. " +
 		"distinct = distinct interleaving signatures")
 	rep.Assume("channels that open or close during a call may or may not receive it; linearizability across goroutines is not demanded (only per-goroutine order is promised)")
 	seed := shardSeed()
-	n := vh.Pick(40, 600)
+	n := vh.Pick(120, 600)
 	for i := 0; i < n; i++ {
 		c11scenario(rep, seed, i)
+		if i%4 == 3 {
+			c11tcp(rep, seed, i)
+		}
 		if rep.NViolations() > 4 {
 			break
 		}
@@ -480,4 +484,221 @@ func TestC11(t *testing.T) {
 	rep.Floor("wire_frames", 5000)
 	rep.Floor("hook:ch.enqueue", 5000)
 	rep.Floor("scenarios_with_closing_channel", 3)
+	rep.Floor("scenarios_tcp", 3)
+}
+
+// c11tcp: the same fan-out properties over real TCP connections (server endpoint, k loopback peers).
+func c11tcp(rep *vh.Report, seed uint64, idx int) {
+	r := vh.Sub(seed, fmt.Sprintf("c11-tcp-%d", idx))
+	hookReset(r.U64(), true, true)
+	k := 2 + r.Intn(4)
+	G := 2 + r.Intn(3)
+	W := 48 / G
+	if W > 10 {
+		W = 10
+	}
+	port := freeTCPPort()
+	node := &gomavlib.Node{Endpoints: []gomavlib.EndpointConf{gomavlib.EndpointTCPServer{Address: fmt.Sprintf("127.0.0.1:%d", port)}},
+		Dialect: testDialect, OutVersion: gomavlib.V2, OutSystemID: 42, OutComponentID: 7, HeartbeatDisable: true, IdleTimeout: 10 * time.Second}
+	if err := node.Initialize(); err != nil {
+		rep.Inconclusive("C11 tcp: " + err.Error())
+		return
+	}
+	cons := newConsumer(rep, "C11", "tcp", node)
+	cons.start()
+	type peer struct {
+		conn  net.Conn
+		label string
+		mu    sync.Mutex
+		uids  []uint64
+		bad   string
+		seen  [8]int32 // per goroutine: items received
+	}
+	peers := make([]*peer, k)
+	var rwg sync.WaitGroup
+	for i := range peers {
+		c, err := net.Dial("tcp4", fmt.Sprintf("127.0.0.1:%d", port))
+		if err != nil {
+			rep.Inconclusive("C11 tcp: dial: " + err.Error())
+			node.Close()
+			return
+		}
+		p := &peer{conn: c, label: "tcp:" + c.LocalAddr().String()}
+		peers[i] = p
+		_, _ = c.Write(uidFrame(uint64(i), 0, 9, false, nil, 0)) // make the node see us
+		rwg.Add(1)
+		go func() {
+			defer rwg.Done()
+			var buf []byte
+			tmp := make([]byte, 4096)
+			for {
+				n, err := p.conn.Read(tmp)
+				buf = append(buf, tmp[:n]...)
+				for len(buf) > 0 {
+					f, ln, st := ref.ParseAt(buf, 0)
+					if st == ref.ParseIncomplete {
+						break
+					}
+					if st != ref.ParseOK {
+						p.mu.Lock()
+						p.bad = "byte stream on the wire is not a sequence of whole frames"
+						p.mu.Unlock()
+						return
+					}
+					if crc, ok := crcExtraOf(f.MsgID); ok && f.Checksum != ref.ChecksumOfWire(buf[:ln], crc) {
+						p.mu.Lock()
+						p.bad = "frame with a wrong checksum on the wire"
+						p.mu.Unlock()
+					}
+					if uid, ok := uidOfWire(f); ok && uid>>56 == 0xC1 {
+						p.mu.Lock()
+						p.uids = append(p.uids, uid)
+						p.mu.Unlock()
+						if g := int(uid >> 40 & 0xFFFF); g < 8 {
+							atomic.AddInt32(&p.seen[g], 1)
+						}
+					}
+					buf = buf[ln:]
+				}
+				if err != nil {
+					return
+				}
+			}
+		}()
+	}
+	if !cons.waitOpen(k, 3*time.Second) {
+		rep.Inconclusive("C11 tcp: channels did not open")
+		node.Close()
+		return
+	}
+	chans := make([]*gomavlib.Channel, k)
+	for _, ci := range cons.openChannels() {
+		for i, p := range peers {
+			if ci.Label == p.label {
+				chans[i] = ci.Ch
+			}
+		}
+	}
+	for _, ch := range chans {
+		if ch == nil {
+			rep.HarnessError("C11 tcp: a peer could not be matched to a channel by its label")
+			node.Close()
+			return
+		}
+	}
+	nOps := vh.Pick(300, 2000)
+	sent := make([][]int32, G) // [g][peer] items that must reach that peer
+	for g := range sent {
+		sent[g] = make([]int32, k)
+	}
+	type call struct {
+		g, target int
+		op        string
+		uid       uint64
+	}
+	var cmu sync.Mutex
+	var calls []call
+	var wg sync.WaitGroup
+	for g := 0; g < G; g++ {
+		wg.Add(1)
+		gr := r.Fork()
+		go func(g int) {
+			defer wg.Done()
+			for i := 0; i < nOps/G; i++ {
+				uid := c11uid(g, i)
+				op := []string{"MsgAll", "MsgTo", "MsgExcept", "FrameAll"}[gr.Intn(4)]
+				target := gr.Intn(k)
+				for ti := 0; ti < k; ti++ {
+					recv := op == "MsgAll" || op == "FrameAll" || (op == "MsgTo" && ti == target) || (op == "MsgExcept" && ti != target)
+					if !recv {
+						continue
+					}
+					for sent[g][ti]-atomic.LoadInt32(&peers[ti].seen[g]) >= int32(W) {
+						time.Sleep(50 * time.Microsecond)
+					}
+					sent[g][ti]++
+				}
+				cmu.Lock()
+				calls = append(calls, call{g, target, op, uid})
+				cmu.Unlock()
+				m := &MessageVfUid{Uid: uid, Kind: 2, Pad: [3]uint8{9, 9, 9}}
+				switch op {
+				case "MsgAll":
+					_ = node.WriteMessageAll(m)
+				case "MsgTo":
+					_ = node.WriteMessageTo(chans[target], m)
+				case "MsgExcept":
+					_ = node.WriteMessageExcept(chans[target], m)
+				case "FrameAll":
+					_ = node.WriteFrameAll(&frame.V2Frame{SequenceNumber: byte(i), SystemID: 3, ComponentID: 4, Message: m})
+				}
+			}
+		}(g)
+	}
+	wg.Wait()
+	total := func() int64 {
+		var n int64
+		for _, p := range peers {
+			for g := 0; g < G; g++ {
+				n += int64(atomic.LoadInt32(&p.seen[g]))
+			}
+		}
+		return n
+	}
+	waitFor(func() bool {
+		for ti, p := range peers {
+			for g := 0; g < G; g++ {
+				if atomic.LoadInt32(&p.seen[g]) < sent[g][ti] {
+					return false
+				}
+			}
+		}
+		return true
+	}, total, 1500*time.Millisecond)
+	node.Close()
+	<-cons.done
+	for _, p := range peers {
+		p.conn.Close()
+	}
+	rwg.Wait()
+	byUID := map[uint64]call{}
+	for _, c := range calls {
+		byUID[c.uid] = c
+	}
+	for ti, p := range peers {
+		if p.bad != "" {
+			rep.Violation("what=torn ep=tcp", p.bad, nil)
+			continue
+		}
+		count := map[uint64]int{}
+		last := map[int]int{}
+		for _, uid := range p.uids {
+			rep.Count("wire_frames_tcp", 1)
+			count[uid]++
+			c, ok := byUID[uid]
+			if !ok || count[uid] > 1 {
+				rep.Violation("what=duplicate ep=tcp", "an item appeared twice (or an unknown item appeared) on a TCP channel", fmt.Sprintf("%x", uid))
+				continue
+			}
+			if (c.op == "MsgTo" && c.target != ti) || (c.op == "MsgExcept" && c.target == ti) {
+				rep.Violation("what=leak:"+c.op+" ep=tcp", fmt.Sprintf("an item written with %s (target %d) appeared on channel %d", c.op, c.target, ti), nil)
+			}
+			i := int(uid & 0xFFFFFFFF)
+			if prev, ok := last[c.g]; ok && i <= prev {
+				rep.Violation("what=reorder ep=tcp", "items of one goroutine out of submission order on a TCP channel", nil)
+			}
+			last[c.g] = i
+		}
+		for _, c := range calls {
+			must := c.op == "MsgAll" || c.op == "FrameAll" || (c.op == "MsgTo" && c.target == ti) || (c.op == "MsgExcept" && c.target != ti)
+			if must && count[c.uid] == 0 {
+				rep.Violation("what=loss:"+c.op+" ep=tcp", fmt.Sprintf("an item written with %s never reached TCP channel %d (backlog stayed below 64)", c.op, ti), nil)
+				break
+			}
+		}
+	}
+	rep.Eval(len(calls))
+	rep.Count("write_calls", len(calls))
+	rep.Count("scenarios_tcp", 1)
+	rep.Distinct("sig", hookSignature())
 }
